@@ -34,12 +34,13 @@ class SegmentURL(DashElement):
         return f'SegmentURL({txt})'
 
     async def validate(self) -> None:
-        if self.attrs.check_not_none(self.index):
+        # SegmentURL@index and SegmentURL@media are optional (5.3.9.3.2)
+        if self.index is not None:
             url = urlparse(self.index)
             self.attrs.check_includes(
                 {'http', 'https'}, url.scheme,
                 msg=f'Expected HTTP(S) URL scheme for index but got "{self.index}"')
-        if self.attrs.check_not_none(self.media):
+        if self.media is not None:
             url = urlparse(self.media)
             self.attrs.check_includes(
                 {'http', 'https'}, url.scheme,
